@@ -168,6 +168,11 @@ def malformed(n):
             for bad in "29":
                 for rest in ("", "0", "1"):
                     yield ("M1.binary-digit", "INVALID_BIN_INT", "0" + b + a + bad + rest, "")
+    # M10 two defects at once: each family's diagnostic must still be there
+    for lit, diag in (("019q", "INVALID_OCT_INT"), ("089uu", "INVALID_OCT_INT"), ("0b102xyz", "INVALID_BIN_INT"), ("0B21uu", "INVALID_BIN_INT"),
+                      ("08_1", "INVALID_OCT_INT"), ("0b2q", "INVALID_BIN_INT")):
+        yield ("M10.base-digit+suffix", diag, lit, "")
+        yield ("M10.base-digit+suffix", "INVALID_SUFFIX", lit, "")
     # M2 unknown integer suffix
     ints = ["1", "10", "0", "07", "0x1", "0xF", "0b1", "9", "0x9a"]
     for i in ints:
